@@ -86,7 +86,7 @@ package lexer
 // ---- functions under contract ---------------------------------------------
 
 //@ func runeAt
-//@   props C03 C09 C18
+//@   props C03 C09:safety C18
 //@   functional
 //@   assigns nothing
 //@   nopanic
@@ -97,7 +97,7 @@ package lexer
 //@   ensures position < len(body) && body[position] >= 128 ==> code >= 128
 
 //@ func readName
-//@   props C03 C09 C18
+//@   props C03 C09:safety C18
 //@   requires source != nil && 0 <= position && position < len(source.Body)
 //@   requires isNameStart(int(source.Body[position]))
 //@   assigns nothing
@@ -112,7 +112,7 @@ package lexer
 //@   loop 1 decreases len(body) - endByte
 
 //@ func positionAfterWhitespace
-//@   props C03 C09 C18
+//@   props C03 C09:safety C18
 //@   requires 0 <= startPosition
 //@   assigns nothing
 //@   nopanic
@@ -131,7 +131,7 @@ package lexer
 //@   loop 2 decreases len(body) - position
 
 //@ func readDigits
-//@   props C03 C09 C18
+//@   props C03 C09:safety C18
 //@   requires s != nil && 0 <= start
 //@   requires firstCode == runeAt_code(s.Body, start) && codeLength == runeAt_charWidth(s.Body, start)
 //@   assigns nothing
@@ -139,14 +139,14 @@ package lexer
 //@   ensures isDigitAt(s.Body, start) ==> result1 == nil && result0 == digitsEnd(s.Body, start)
 //@   ensures !isDigitAt(s.Body, start) ==> result1 != nil
 //@   ensures result1 == nil ==> start < result0 && result0 <= len(s.Body)
-//@   at call NewSyntaxError: assert arg1 == start
+//@   at[C18] call NewSyntaxError: assert arg1 == start
 //@   loop 1 invariant body == s.Body && start <= position && position <= len(body)
 //@   loop 1 invariant code == runeAt_code(body, position) && codeLength == runeAt_charWidth(body, position)
 //@   loop 1 invariant digitsEnd(body, position) == digitsEnd(body, start)
 //@   loop 1 decreases len(body) - position
 
 //@ func readNumber
-//@   props C03 C09 C18
+//@   props C03 C09:safety C18
 //@   opt split=4
 //@   requires s != nil && 0 <= start && start < len(s.Body)
 //@   requires firstCode == runeAt_code(s.Body, start) && codeLength == runeAt_charWidth(s.Body, start)
@@ -208,28 +208,28 @@ package lexer
 //@   pure
 
 //@ func readString
-//@   props C03 C09 C18
+//@   props C03 C09:safety C18
 //@   opt split=3
 //@   requires s != nil && 0 <= start && start < len(s.Body) && s.Body[start] == '"'
 //@   assigns nothing
 //@   nopanic
 //@   ensures strScan(s.Body, start+1) >= 0 ==> result1 == nil && result0.Kind == STRING && result0.Start == start && result0.End == strScan(s.Body, start+1) + 1
 //@   ensures strScan(s.Body, start+1) < 0 ==> result1 != nil
-//@   at call NewSyntaxError: assert arg1 == position
+//@   at[C18] call NewSyntaxError: assert arg1 == position
 //@   loop 1 invariant body == s.Body && start < chunkStart && chunkStart <= position && position <= len(body) && start < runePosition
 //@   loop 1 invariant strScan(body, position) == strScan(body, start+1)
 //@   loop 1 invariant (forall i in start+1..position: body[i] < 128) ==> runePosition == position
 //@   loop 1 decreases len(body) - position
 
 //@ func readBlockString
-//@   props C03 C09 C18
+//@   props C03 C09:safety C18
 //@   opt split=3
 //@   requires s != nil && 0 <= start && start + 3 <= len(s.Body)
 //@   assigns nothing
 //@   nopanic
 //@   ensures blockScan(s.Body, start+3) >= 0 ==> result1 == nil && result0.Kind == BLOCK_STRING && result0.Start == start && result0.End == blockScan(s.Body, start+3) + 3
 //@   ensures blockScan(s.Body, start+3) < 0 ==> result1 != nil
-//@   at call NewSyntaxError: assert arg1 == position
+//@   at[C18] call NewSyntaxError: assert arg1 == position
 //@   loop 1 invariant body == s.Body && start + 3 <= chunkStart && chunkStart <= position && position <= len(body) && start + 3 <= runePosition
 //@   loop 1 invariant blockScan(body, position) == blockScan(body, start+3)
 //@   loop 1 invariant (forall i in start+3..position: body[i] < 128) ==> runePosition == position
@@ -261,7 +261,7 @@ package lexer
 //@ spec func startsNoToken(c int) bool { return punctKind(c) == 0 && c != '.' && !isNameStart(c) && !isNumberStart(c) && c != '"' }
 
 //@ func readToken
-//@   props C03 C09 C18
+//@   props C03 C09:safety C18
 //@   opt split=4
 //@   requires s != nil && 0 <= fromPosition
 //@   assigns nothing
@@ -280,4 +280,4 @@ package lexer
 //@   ensures tokStart(s.Body, fromPosition) < len(s.Body) && isBlockQuoteAt(s.Body, tokStart(s.Body, fromPosition)) && blockScan(s.Body, tokStart(s.Body, fromPosition) + 3) >= 0 ==> result1 == nil && result0.Kind == BLOCK_STRING && result0.Start == tokStart(s.Body, fromPosition) && result0.End == blockScan(s.Body, tokStart(s.Body, fromPosition) + 3) + 3
 //@   ensures tokStart(s.Body, fromPosition) < len(s.Body) && isBlockQuoteAt(s.Body, tokStart(s.Body, fromPosition)) && blockScan(s.Body, tokStart(s.Body, fromPosition) + 3) < 0 ==> result1 != nil
 //@   ensures tokStart(s.Body, fromPosition) < len(s.Body) && startsNoToken(tokCode(s.Body, fromPosition)) ==> result1 != nil
-//@   at call NewSyntaxError: assert arg1 == tokStart(s.Body, fromPosition)
+//@   at[C18] call NewSyntaxError: assert arg1 == tokStart(s.Body, fromPosition)
